@@ -45,18 +45,18 @@ def run(tier, seed, replay):
     prefer = lambda e: e[1]["n"] in ("PackLod", "PackSto", "DlSendBack")
     paths, left = graph.cover(seed=seed, max_len=40, max_paths=None if big else 600, prefer=prefer)
     behs = [graph.behaviour(p) for p in paths]
-    # garbage interleaved, IP target, same-domain sessions (cache hits)
-    g2, _ = udprelay.model(dict(Sess='{"s1","s2"}', Targets='{"a","ip"}', Domains='{"a"}', Rejected="{}", MaxSend=2, ChanCap=2, MaxReply=0, MaxTimer=0, GarbageOn="TRUE"),
+    # IP target, same-domain sessions (cache hits)
+    g2, _ = udprelay.model(dict(Sess='{"s1","s2"}', Targets='{"a","ip"}', Domains='{"a"}', Rejected="{}", MaxSend=2, ChanCap=2, MaxReply=0, MaxTimer=0),
                            props=False, edges=True)
     graph2 = udprelay.urgent_filter(vlib.Graph(g2), drop=("StopBegin",))
-    paths2, left2 = graph2.cover(seed=seed, max_len=40, max_paths=(3000 if big else 300), prefer=lambda e: e[1]["n"] in ("Garbage", "PackChk"))
+    paths2, left2 = graph2.cover(seed=seed, max_len=40, max_paths=(3000 if big else 300), prefer=lambda e: e[1]["n"] == "PackChk")
     # a name whose lookup fails, between lookups that succeed: the failed lookup must not leave the cache pointing elsewhere
     g5, _ = udprelay.model(dict(Sess='{"s1"}', Targets='{"a","nx"}', Domains='{"a","nx"}', Unresolvable='{"nx"}', Rejected="{}", MaxSend=3, ChanCap=3,
                                 MaxReply=0, MaxTimer=0), props=False, edges=True)
     graph5 = udprelay.urgent_filter(vlib.Graph(g5), drop=("StopBegin",))
     paths5, left5 = graph5.cover(seed=seed, max_len=40, max_paths=None if big else 200)
     v.coverage["replay_graphs"] = [{"targets": "a,b", "distinct": g.distinct, "edges": len(graph.edges), "paths": len(paths), "uncovered_edges": left},
-                                   {"targets": "a,ip + garbage", "distinct": g2.distinct, "edges": len(graph2.edges), "paths": len(paths2), "uncovered_edges": left2}]
+                                   {"targets": "a,ip (cache hits)", "distinct": g2.distinct, "edges": len(graph2.edges), "paths": len(paths2), "uncovered_edges": left2}]
     n1, s1, d1 = udprelay.replay(v, binary, behs, variants, seed, "isolation replay")
     n2, s2, d2 = udprelay.replay(v, binary, [graph2.behaviour(p) for p in paths2] + [graph5.behaviour(p) for p in paths5], variants[:1], seed,
                                  "isolation replay (cache hits, garbage, failed lookups)")
@@ -72,8 +72,27 @@ def run(tier, seed, replay):
     paths7m, _ = graph7m.cover(seed=seed, max_len=40, prefer=lambda e: e[1]["n"] == "Garbage", tail=12)
     n7m, s7m, d7m = udprelay.replay(v, binary, [graph7m.behaviour(p) for p in paths7m], variants[1:], seed, "garbage-first replay")
     n7, s7, d7 = n7 + n7m, s7 + s7m, max(d7, d7m)
+    # garbage of one client while another client's session lives
+    g7b, _ = udprelay.model(dict(Sess='{"s1","s2"}', Targets='{"ip"}', Domains="{}", Rejected="{}", MaxSend=1, ChanCap=1, MaxReply=0, MaxTimer=0, GarbageOn="TRUE"), props=False, edges=True)
+    graph7b = udprelay.urgent_filter(vlib.Graph(g7b), drop=("StopBegin",))
+    paths7b, left7b = graph7b.cover(seed=seed, max_len=40, max_paths=None if big else 120, prefer=lambda e: e[1]["n"] == "Garbage", tail=8)
+    n7b, s7b, d7b = udprelay.replay(v, binary, [graph7b.behaviour(p) for p in paths7b], variants, seed, "garbage-first replay")
+    v.coverage["replay_graphs"].append({"relay": "two sessions, garbage at every state", "distinct": g7b.distinct, "edges": len(graph7b.edges), "paths": len(paths7b), "uncovered_edges": left7b})
+    n7, s7, d7 = n7 + n7b, s7 + s7b, max(d7, d7b)
     v.coverage["replay_graphs"].append({"relay": "one session, garbage at every state", "distinct": g7.distinct, "edges": len(graph7.edges), "paths": len(paths7), "uncovered_edges": left7})
     n2, s2, d2 = n2 + n7, s2 + s7, max(d2, d7)
+    # (the real send channel holds at least 64 packets: the graphs keep ChanCap >= MaxSend so that the model never drops)
+    # (2d) batched uplink of the recvmmsg/sendmmsg path (UpBatch): several packets for different destinations packed into
+    #      one sendmmsg call, followed by further batches; every datagram of every batch must reach the target it names
+    g8, _ = udprelay.model(dict(Sess='{"s1"}', Targets='{"ip","ip2"}', Domains="{}", Rejected="{}", MaxSend=3 if not big else 4, ChanCap=3 if not big else 4,
+                                MaxReply=0, MaxTimer=0, UpBatch="TRUE"), props=False, edges=True)
+    graph8 = udprelay.urgent_filter(vlib.Graph(g8), drop=("StopBegin",))
+    paths8, left8 = graph8.cover(seed=seed, max_len=40, max_paths=None if big else 120,
+                                 prefer=lambda e: e[1]["n"] == "UpPack" and len(e[1].get("flush") or []) > 1)
+    bvars = [{"server": "socks5", "batchMode": "sendmmsg", "natTimeout": "30s"}, {"server": "ss2022", "batchMode": "sendmmsg", "natTimeout": "61s"}]
+    n8, s8, d8 = udprelay.replay(v, binary, [graph8.behaviour(p) for p in paths8], bvars, seed, "batched uplink replay")
+    v.coverage["replay_graphs"].append({"relay": "batched uplink (sendmmsg), two destinations", "distinct": g8.distinct, "edges": len(graph8.edges), "paths": len(paths8), "uncovered_edges": left8})
+    n2, s2, d2 = n2 + n8, s2 + s8, max(d2, d8)
     # (3) session-id keyed relay (Shadowsocks 2022 server): the client moves to another address mid-session, forged/replayed
     #     datagrams with the session's id arrive from a foreign address; replies must follow the latest authenticated address
     g3, _ = udprelay.model(dict(Sess='{"s1"}', Targets='{"ip"}', Domains="{}", Rejected="{}", MaxSend=2, ChanCap=2, MaxReply=2, MaxTimer=0, Keyed='"sid"'),
